@@ -38,7 +38,7 @@ def design_mc(ctx):
 def scenarios(ctx):
     rng = ctx.rng
     scs = []
-    for i in range(700 if ctx.quick else 15000):
+    for i in range(1300 if ctx.quick else 15000):
         ns = rng.choice([1, 2, 3])
         w = PW.rand_world(rng, nsamples=ns, nchroms=rng.choice([1, 2]), max_sites=rng.choice([3, 5]), depth=(1, 2),
                           het_prob=0.7, kinds=("snv", "snv", "ins", "del"))
